@@ -879,5 +879,6 @@ func main() {
 	}
 	transportScenarios(r, thorough)
 	idWrapCases()
+	acksZeroCases()
 	discoverCase(thorough)
 }
